@@ -189,7 +189,8 @@ def run_case(rec, inp):
         dl = 5 * np.log10((1 + zs) ** 2 * ds) - 5 * np.log10((1 + za) ** 2 * D(cosmo, za))
     beta = None
     if t == "DSPL":
-        beta = D12(cosmo, zl, zs) / D(cosmo, zs) * D(cosmo, zs2) / D12(cosmo, zl, zs2)
+        # np.float64 like the library's own beta: a negative base ** fractional power is then NaN, not a complex number
+        beta = np.float64(D12(cosmo, zl, zs) / D(cosmo, zs) * D(cosmo, zs2) / D12(cosmo, zl, zs2))
 
     def evaluate(hp_, kap=None, kwargs=None):
         r1.calls = []
@@ -273,6 +274,7 @@ def run_case(rec, inp):
         vio("C03:n_calls:" + t, "sharp hyper-parameters: exactly one data-likelihood evaluation", len(calls), 1); return
     with np.errstate(all="ignore"):
         ref = fscalar(data_like(e)) + e["prior"]
+        cf = closed_form(e)
     # tolerance: identical float operations up to re-association of lam*(1-kap) -> a few ulp on the distances; the
     # likelihoods amplify by at most ~1e4 (chi^2 ~ 1e4): 1e-9 relative is ample.  A NaN data likelihood (DSPL with a
     # negative base) is C02's business (nan_to_num) and skipped here; -inf is returned as -1.8e308.
@@ -284,7 +286,6 @@ def run_case(rec, inp):
     if bad: vio(("C03:floor:" if fl else "C03:wiring_args:") + t, "arguments handed to the data likelihood (got, expected)", bad, "rescaled cosmological prediction")
     if t == "DSPL" and not same(calls[0].get("beta_dsp"), beta, rtol=1e-12, atol=0):
         vio("C03:dspl_beta", "DSPL must be evaluated at the cosmological beta", jsonable(calls[0].get("beta_dsp")), beta)
-    cf = closed_form(e)
     if cf is not None and np.isfinite(cf):
         # closed forms use np.linalg.solve instead of inv: 1e-8 relative
         if not same(v, fscalar(cf) + e["prior"], rtol=1e-8, atol=1e-8):
